@@ -28,7 +28,10 @@ contract(SB, "BaseNestedSampler.checkpoint", props=["C15", "C13", "C05"],
          "is C11's subject)", frame_check=True, self_shape="NestedSampler",
          params={"periodic": "Bool", "force": "Bool",
                  "save_existing": "Bool"},
-         modifies=[])
+         # ghost: number of checkpoint files written (this method is the
+         # only writer; it may also return early for a periodic request)
+         modifies=["self.ghost_ckpt_writes"],
+         ensures=["self.ghost_ckpt_writes >= old(self.ghost_ckpt_writes)"])
 contract(
     NS, "NestedSampler.initialise", props=["C15", "C13", "C05"],
     trusted=True,
@@ -48,7 +51,8 @@ contract(
 
 LOOP_MOD = sorted(set(CONSUME_MOD + ["self.block_acceptance",
                                      "self.block_iteration",
-                                     "self.proposal", "self.model"]))
+                                     "self.proposal", "self.model",
+                                     "self.ghost_ckpt_writes"]))
 
 contract(
     NS, "NestedSampler.nested_sampling_loop",
@@ -60,7 +64,7 @@ contract(
         "self.max_iteration >= 0", "self.block_iteration >= 0",
     ],
     modifies=LOOP_MOD + ["self.initialised", "self.finalised",
-                         "self.resumed"],
+                         "self.resumed", "self.ghost_ckpt_writes"],
     returns="Tuple(Real,Any)",
     loops={0: {
         # the stopping rule, statement by statement: an iteration starts
@@ -263,7 +267,8 @@ for _p in ("log_evidence", "nested_samples_unit", "samples"):
              trusted=True, trusted_reason="read-only property",
              returns=("Real" if _p == "log_evidence" else "Any"))
 
-INS_LOOP_MOD = ["self.live_points_unit", "self.training_samples",
+INS_LOOP_MOD = ["self.ghost_ckpt_writes",
+                "self.live_points_unit", "self.training_samples",
                 "self.proposal",
                 "self.iteration", "self.criterion", "self.importance",
                 "self.log_likelihood_threshold",
